@@ -49,7 +49,12 @@ _ACCOUNTING_METHOD_PACKAGE = "rp2.plugin.accounting_method"
 
 def rp2_main(country: AbstractCountry) -> None:
     if "RP2_ENABLE_PROFILER" in os.environ:
-        cProfile.runctx("_rp2_main_internal(country)", globals(), locals())
+        # cProfile.runctx() swallows SystemExit, which would turn the exit status of a failed run into 0
+        profiler: cProfile.Profile = cProfile.Profile()
+        try:
+            profiler.runctx("_rp2_main_internal(country)", globals(), locals())
+        finally:
+            profiler.print_stats()
     else:
         _rp2_main_internal(country)
 
